@@ -128,12 +128,42 @@ func optionalPointersTested(c *cx, id string) int {
 					if !isB || be.Op != token.LAND || !containsNode(be.Y, st) {
 						continue
 					}
-					ast.Inspect(be.X, func(x ast.Node) bool {
-						if l, isL := x.(*ast.BinaryExpr); isL && l.Op == token.NEQ && isNilIdent(f, l.Y) && f.Norm(l.X, nil) == f.Norm(sel, nil) {
-							okd = true
+					want := f.Norm(sel, nil)
+					var implies func(e ast.Expr, pol bool) bool
+					implies = func(e ast.Expr, pol bool) bool {
+						e = ast.Unparen(e)
+						switch y := e.(type) {
+						case *ast.UnaryExpr:
+							if y.Op == token.NOT {
+								return implies(y.X, !pol)
+							}
+						case *ast.BinaryExpr:
+							switch y.Op {
+							case token.NEQ, token.EQL:
+								var other ast.Expr
+								if isNilIdent(f, y.Y) {
+									other = y.X
+								} else if isNilIdent(f, y.X) {
+									other = y.Y
+								}
+								if other != nil && f.Norm(other, nil) == want {
+									return (y.Op == token.NEQ) == pol
+								}
+							case token.LAND:
+								if pol {
+									return implies(y.X, true) || implies(y.Y, true)
+								}
+							case token.LOR:
+								if !pol {
+									return implies(y.X, false) || implies(y.Y, false)
+								}
+							}
 						}
-						return !okd
-					})
+						return false
+					}
+					if implies(be.X, true) {
+						okd = true
+					}
 				}
 			}
 			c.r.Check(id, f, "dereference of optional "+strings.TrimPrefix(e, "local:"), "G: an optional (pointer-to-scalar) field is dereferenced only behind a test that it is not nil", st.Pos(), okd, "no dominating test "+e+" != nil: a reply that leaves the value out panics the caller")
